@@ -141,8 +141,24 @@ var ProfileC12 = &Profile{
 	},
 }
 
+// c13Gov: governance acts between blocks – it switches a pool's Eden rewards off or on again and
+// changes pool multipliers (both are what the masterchef's gov messages exist for).
+func c13Gov(h *History, g *G) []EnvAction {
+	if g.Int("gov?", 0, 7) != 0 || len(h.Cur.MCPoolInfos) == 0 {
+		return nil
+	}
+	pi := h.Cur.MCPoolInfos[g.Pick("gov/pool", len(h.Cur.MCPoolInfos))]
+	if g.Int("gov/kind", 0, 2) == 0 {
+		mult := []string{"0", "0.5", "1", "3"}[g.Pick("gov/mult", 4)]
+		h.Labels["gov-multiplier"]++
+		return []EnvAction{h.W.GovEnv(&mctypes.MsgUpdatePoolMultipliers{Authority: GovAddr(), PoolMultipliers: []mctypes.PoolMultiplier{{PoolId: pi.PoolId, Multiplier: sdkmath.LegacyMustNewDecFromStr(mult)}}})}
+	}
+	h.Labels["gov-eden-toggle"]++
+	return []EnvAction{h.W.GovEnv(&mctypes.MsgTogglePoolEdenRewards{Authority: GovAddr(), PoolId: pi.PoolId, Enable: !pi.EnableEdenRewards})}
+}
+
 var ProfileC13 = &Profile{
-	ID: "C13", Name: "rewards", MinBlocks: 8, MaxBlocks: 40, MaxTxs: 5, Spec: specDefault, Check: CheckC13, FinalOps: c13Drain, Final: c13Final,
+	ID: "C13", Name: "rewards", MinBlocks: 8, MaxBlocks: 40, MaxTxs: 5, Spec: specDefault, Check: CheckC13, FinalOps: c13Drain, Final: c13Final, PreBlock: c13Gov,
 	Weights: map[string]int{"amm.swap_in": 14, "amm.swap_out": 8, "amm.swap_in_2hop": 3, "amm.join": 8, "amm.exit": 6, "stablestake.bond": 5, "stablestake.unbond": 3,
 		"perpetual.open": 6, "perpetual.close": 4, "leveragelp.open": 4, "leveragelp.close": 3, "leveragelp.claim_rewards": 2,
 		"masterchef.claim": 8, "masterchef.add_external_incentive": 5, "oracle.feed_price": 3},
